@@ -259,6 +259,9 @@ def run(ctx, prop):
     vocab = set()
     for e in table.values():
         vocab.update(e.get("calls", []))
+    if not mine:
+        ctx.note("%s: no pinned function is listed for this property" % R)
+        return
     ctx.floor(R, "pinned functions", len(mine), 1)
     for q in sorted(mine):
         e = mine[q]
